@@ -121,6 +121,18 @@ where
             .with_fixint_encoding()
             .allow_trailing_bytes()
     }
+
+    /// Registry entries with their kind (verification accessor)
+    #[cfg(crux_verif)]
+    pub fn verif_registry(&self) -> Vec<(u32, crate::verif::EntryKind)> {
+        self.inner.verif_registry()
+    }
+
+    /// Runtime queues of the wrapped core (verification accessor)
+    #[cfg(crux_verif)]
+    pub fn verif_stats(&self) -> crate::verif::CoreStats {
+        self.inner.verif_stats()
+    }
 }
 
 /// A bridge with a user supplied serializer
@@ -231,6 +243,18 @@ where
     }
 
     /// Get the current state of the app's view model (serialized).
+    /// Registry entries with their kind (verification accessor)
+    #[cfg(crux_verif)]
+    pub fn verif_registry(&self) -> Vec<(u32, crate::verif::EntryKind)> {
+        self.registry.verif_entries()
+    }
+
+    /// Runtime queues of the wrapped core (verification accessor)
+    #[cfg(crux_verif)]
+    pub fn verif_stats(&self) -> crate::verif::CoreStats {
+        self.core.verif_stats()
+    }
+
     pub fn view<S>(&self, ser: S) -> Result<(), BridgeError>
     where
         S: ::serde::ser::Serializer,
